@@ -707,6 +707,13 @@ class StateDom(object):
         for k, d, cur in zip(keys, doms, v):
             if k in newvals:
                 nv = newvals[k]
+                if isinstance(nv, list):
+                    # a list literal: compared with the tuples of the domain
+                    try:
+                        hash(tuple(nv))
+                        nv = tuple(nv)
+                    except TypeError:
+                        pass
                 if nv is UNK or nv is RAISES:
                     choices.append(d)
                 elif nv in d:
